@@ -644,6 +644,12 @@ def render(res):
     return "\n".join(L) + "\n"
 
 
+def stats(res):
+    return {"skeleton_tokens": sum(len(v) for v in res["run"].values() if isinstance(v, list)),
+            "strategy_effects": sum(len(e) for _, e in res["fns"]),
+            "clear_resets": len(res["clearSets"])}
+
+
 def emit(path):
     res = extract()
     txt = render(res)
